@@ -83,6 +83,8 @@ type Obligation struct {
 	ClauseAt string
 	CallLog  []callRec
 	Params   []string
+	Observe  [][2]string // name, term
+	ObservePrefix int
 }
 
 type Engine struct {
